@@ -27,7 +27,7 @@ Proof.
   unfold step. destruct (exec s m) as [[s' r]|o] eqn:E; [|apply lpt_step_same; reflexivity].
   destruct m as [buy sender rcpt din ain dout aout deadline | sender dtok max_tok exact min_liq deadline
                 | sender dlpt w min_std min_tok deadline | sender cp0 dtok exact min_liq deadline
-                | sender cp0 dtok min_tok w deadline | from to d amt | dt];
+                | sender cp0 dtok min_tok w deadline | from to d amt | dt | auth q];
     unfold sender_ok in Hs; simpl in Hs, E; try (apply not_pool_le in Hs).
   - destruct (swap_balance_sheet_lemma _ _ _ _ _ _ _ _ _ _ _ E) as (_ & _ & _ & _ & HS & _).
     apply lpt_step_same. unfold liquidity. apply HS.
@@ -97,4 +97,6 @@ Proof.
   - destruct (exec_send_spec _ _ _ _ _ _ _ E) as (_ & _ & _ & M & _).
     destruct M as (_ & MS & _). apply lpt_step_same. unfold liquidity. rewrite MS. unfold zero1. lia.
   - inversion E; subst. apply lpt_step_same. reflexivity.
+  - destruct (exec_update_params_spec _ _ _ _ _ E) as (_ & _ & _ & _ & HSup & _).
+    apply lpt_step_same. unfold liquidity, supply. rewrite HSup. reflexivity.
 Qed.
